@@ -26,12 +26,14 @@ CONSTANTS Ls,        \* chain lengths
           Rs,        \* numbers of product states summed
           Xs,        \* redundant bond dimensions added to the input
           Ds,        \* physical size per site (2: state, 4: operator seen as a state)
+          Norms,     \* values of the option normalize
           MethodsC,  \* methods explored
           Mutant,    \* "" or the name of a deliberate deviation (self-tests of the model)
           Emit       \* print every finished case as JSON (S->C replay)
 
-VARIABLES cfg, b, vr, iso, lossy, pc, env
-vars == <<cfg, b, vr, iso, lossy, pc, env>>
+VARIABLES cfg, b, vr, iso, lossy, pc, env,
+          normed     \* the physical site whose tensor normalize=True rescales (0: none)
+vars == <<cfg, b, vr, iso, lossy, pc, env, normed>>
 
 Min(x, y) == IF x <= y THEN x ELSE y
 Max(x, y) == IF x >= y THEN x ELSE y
@@ -81,11 +83,14 @@ Family(m) ==
 Iters(m) == IF m = "fit" THEN 10 ELSE IF m \in {"fit-zipup", "fit-projector"} THEN 8 ELSE 1
 
 Init ==
-  \E LL \in Ls, r \in Rs, x \in Xs, dd \in Ds, m \in MethodsC, rev \in BOOLEAN, cq \in {-1, 0, 1, 99} :
+  \E LL \in Ls, r \in Rs, x \in Xs, dd \in Ds, m \in MethodsC, rev \in BOOLEAN, cq \in {-1, 0, 1, 99}, nz \in Norms :
     LET cap == IF cq = 99 THEN 0 ELSE r + cq IN
     /\ (cq = 99 \/ cap >= 1)
+    \* (normalize is explored on the inputs without redundant bonds: it does not interact with them)
+    /\ (nz => x = 0)
     /\ cfg = [L |-> LL, d |-> dd, r |-> r, x |-> x, method |-> m, cap |-> cap, rev |-> rev,
-              sweeps |-> <<"R", "L">>, iters |-> Iters(m)]
+              sweeps |-> <<"R", "L">>, iters |-> Iters(m), normalize |-> nz]
+    /\ normed = 0
     /\ b = [k \in 1..(LL - 1) |-> r + x]
     /\ vr = [k \in 1..(LL - 1) |-> RankOf(r, dd, LL, k)]
     /\ iso = [s \in 1..LL |-> "N"]
@@ -100,17 +105,17 @@ Centre == IF \E s \in 1..L : CanonicalAround(s, [t \in 1..L |-> iso[t] = "L"], [
           ELSE 0
 
 Case(rej) == [L |-> L, kind |-> IF d = 2 THEN "mps" ELSE "mpo", r |-> cfg.r, x |-> cfg.x, method |-> cfg.method,
-              cap |-> cfg.cap, rev |-> cfg.rev, bonds |-> b, centre |-> Centre, lossy |-> lossy, rejected |-> rej]
+              cap |-> cfg.cap, rev |-> cfg.rev, normalize |-> cfg.normalize, bonds |-> b, centre |-> Centre, lossy |-> lossy, rejected |-> rej]
 
 (* ---- start: dispatch, rejection of a missing cap ---- *)
 Start ==
   /\ pc.ph = "start"
   /\ LET f == Family(cfg.method) IN
      IF cfg.cap = 0 /\ cfg.method \in NeedsCap
-       THEN /\ Goto("rejected", 0) /\ UNCHANGED <<cfg, b, vr, iso, lossy, env>>
+       THEN /\ Goto("rejected", 0) /\ UNCHANGED <<cfg, b, vr, iso, lossy, env, normed>>
             /\ (Emit => PrintT(<<"QVJSON", ToJson(Case(TRUE))>>))
      ELSE
-     /\ UNCHANGED <<cfg, b, vr, iso, lossy, env>>
+     /\ UNCHANGED <<cfg, b, vr, iso, lossy, env, normed>>
      /\ CASE f = "direct"   -> pc' = [pc EXCEPT !.ph = "canon", !.k = 1]
           [] f = "dm"       -> pc' = [pc EXCEPT !.ph = "dm", !.k = L]
           [] f = "zipup"    -> pc' = [pc EXCEPT !.ph = "pseudo", !.k = 0]
@@ -135,7 +140,7 @@ CanonizeStep ==
      /\ b' = [b EXCEPT ![PB(k, f)] = nb]
      /\ iso' = [iso EXCEPT ![S(k, f)] = Up(f), ![S(k + 1, f)] = "N"]
      /\ IF k + 1 < L THEN Goto("canon", k + 1) ELSE Goto("compress", L)
-  /\ UNCHANGED <<cfg, vr, lossy, env>>
+  /\ UNCHANGED <<cfg, vr, lossy, env, normed>>
 
 (* ---- compress_between(tags[k-1], tags[k], reduced='right', absorb='left'): SVD of position k ---- *)
 CompressStep ==
@@ -152,7 +157,7 @@ CompressStep ==
      /\ lossy' = (lossy \/ nb < rank)
      /\ iso' = [iso EXCEPT ![S(k, f)] = Down(f), ![S(k - 1, f)] = "N"]
      /\ IF k > 2 THEN Goto("compress", k - 1) ELSE Goto("finish", 0)
-  /\ UNCHANGED <<cfg, env>>
+  /\ UNCHANGED <<cfg, env, normed>>
 
 (* ---- density matrix method: eigen-decomposition of the exact reduced density operator of position k.. ---- *)
 DMStep ==
@@ -166,7 +171,7 @@ DMStep ==
      /\ lossy' = (lossy \/ nb < vr[pb])
      /\ iso' = [iso EXCEPT ![S(k, f)] = Down(f), ![S(k - 1, f)] = "N"]
      /\ IF k > 2 THEN Goto("dm", k - 1) ELSE Goto("finish", 0)
-  /\ UNCHANGED <<cfg, env>>
+  /\ UNCHANGED <<cfg, env, normed>>
 
 (* ---- zip-up: canonize_around_(tags[-1]) then zip down ---- *)
 RECURSIVE CanonUp(_, _, _)
@@ -186,7 +191,7 @@ PseudoCanonize ==
        ELSE /\ b' = CanonUp(b, 1, f)
             /\ iso' = [s \in 1..L |-> IF s = S(L, f) THEN "N" ELSE Up(f)]
   /\ Goto("zip", L)
-  /\ UNCHANGED <<cfg, vr, lossy, env>>
+  /\ UNCHANGED <<cfg, vr, lossy, env, normed>>
 
 ZipStep ==
   /\ pc.ph = "zip"
@@ -201,7 +206,7 @@ ZipStep ==
      /\ lossy' = (lossy \/ nb < rank)
      /\ iso' = [iso EXCEPT ![S(k, f)] = Down(f), ![S(k - 1, f)] = "N"]
      /\ IF k > 2 THEN Goto("zip", k - 1) ELSE Goto("second", 0)
-  /\ UNCHANGED <<cfg, env>>
+  /\ UNCHANGED <<cfg, env, normed>>
 
 (* ---- sdc / src: low rank left environments, then QR projectors from the top ---- *)
 \* env[k], k = 2..L: number of rows of the environment used for position k
@@ -218,7 +223,7 @@ SketchStep ==
      \* sketch with at least rank-many rows keeps the row space (general position)
      /\ lossy' = (lossy \/ (det /\ ne < full))
      /\ IF k + 1 < L THEN Goto("sketch", k + 1) ELSE Goto("project", L)
-  /\ UNCHANGED <<cfg, b, vr, iso>>
+  /\ UNCHANGED <<cfg, b, vr, iso, normed>>
 
 ProjectStep ==
   /\ pc.ph = "project"
@@ -231,7 +236,7 @@ ProjectStep ==
      /\ lossy' = (lossy \/ nb < vr[pb])
      /\ iso' = [iso EXCEPT ![S(k, f)] = Down(f), ![S(k - 1, f)] = "N"]
      /\ IF k > 2 THEN Goto("project", k - 1) ELSE Goto("second", 0)
-  /\ UNCHANGED <<cfg, env>>
+  /\ UNCHANGED <<cfg, env, normed>>
 
 (* ---- variational fit (1-site, cutoff 0) ---- *)
 \* the guess is random (or the zip-up result): its bonds are expanded to the cap
@@ -240,7 +245,7 @@ FitPrepare ==
   /\ b' = [k \in DOMAIN b |-> IF MaxOf(b) < pc.cap \/ Family(cfg.method) # "fitguess" THEN pc.cap ELSE b[k]]
   /\ iso' = [s \in 1..L |-> "N"]
   /\ pc' = [pc EXCEPT !.ph = "fitsweep", !.it = 1]
-  /\ UNCHANGED <<cfg, vr, lossy, env>>
+  /\ UNCHANGED <<cfg, vr, lossy, env, normed>>
 
 \* sweep number pc.it: "R" runs up the logical order (centre ends at the top), "L" runs down;
 \* the fit does not reverse site_tags, it flips the direction instead
@@ -263,7 +268,7 @@ FitSweep ==
                /\ vr' = [k \in DOMAIN vr |-> Min(Rank0(k), nb[k])]
                /\ lossy' = (\E k \in DOMAIN vr : nb[k] < Rank0(k))
                /\ Goto("second", 0)
-  /\ UNCHANGED <<cfg, env>>
+  /\ UNCHANGED <<cfg, env, normed>>
 
 (* ---- second phase ---- *)
 SecondPhase ==
@@ -274,11 +279,25 @@ SecondPhase ==
             pc' = [pc EXCEPT !.ph = "compress", !.k = L, !.flip = cfg.rev, !.cap = cfg.cap]
        [] fam = "fitguess" /\ pc.it = 0 -> pc' = [pc EXCEPT !.ph = "fitprep"]
        [] OTHER -> Goto("finish", 0)
-  /\ UNCHANGED <<cfg, b, vr, iso, lossy, env>>
+  /\ UNCHANGED <<cfg, b, vr, iso, lossy, env, normed>>
+
+\* normalize=True "makes use of the fact that the output is in canonical form": one tensor is rescaled
+\*  - direct and every _do_direct_sweep: new[site_tags[0]] of the (possibly reversed) site_tags;
+\*  - the shared finaliser of dm / zipup / sdc / src / srcmps: ts[0] of the tensor sequence of the *sweep*, before
+\*    the cosmetic ts.reverse() that only orders the tensor_map for sweep_reverse;
+\*  - the variational fit: the end its last sweep ran to.
+NormalizedSite ==
+  LET fam == Family(cfg.method) IN
+  IF fam \in {"fit", "fitguess"}
+    THEN (IF (LastSweep(cfg.sweeps, cfg.iters) = "L") # cfg.rev THEN 1 ELSE L)
+  ELSE IF fam \in {"dm", "zipup", "sdc", "src"} /\ Mutant = "normalize-after-reverse" /\ cfg.rev
+    THEN S(L, cfg.rev)      \* ts[0] after the reversal is the far end of the sweep
+  ELSE S(1, cfg.rev)
 
 Finish ==
   /\ pc.ph = "finish"
   /\ Goto("done", 0)
+  /\ normed' = IF cfg.normalize THEN NormalizedSite ELSE 0
   /\ (Emit => PrintT(<<"QVJSON", ToJson(Case(FALSE))>>))
   /\ UNCHANGED <<cfg, b, vr, iso, lossy, env>>
 
@@ -294,6 +313,11 @@ CentreWherePromised ==
           c > 0 => CanonicalAround(c, [t \in 1..L |-> iso[t] = "L"], [t \in 1..L |-> iso[t] = "R"])
 ValueKept == (Done /\ NothingToTruncate(cfg.method, cfg.cap, TRUE, [k \in DOMAIN vr |-> Rank0(k)],
                                         [k \in DOMAIN vr |-> cfg.r + cfg.x])) => ~lossy
+\* the tensor that normalize=True rescales is the one non-isometric tensor: then the norm of the result is the
+\* norm of that tensor, 1, and the result is input / ||input|| when nothing was truncated
+NormalizedAtCentre ==
+  (Done /\ cfg.normalize) => /\ normed \in 1..L
+                              /\ \A s \in 1..L : (iso[s] = "N") => s = normed
 \* a rejection only where the documentation demands a cap
 RejectOnlyDocumented == pc.ph = "rejected" => (cfg.cap = 0 /\ cfg.method \in NeedsCap)
 =============================================================================
